@@ -40,6 +40,8 @@ def forests() -> list[tuple[list[Any], list[list[tuple]]]]:
 
 FALSY_FOREST = 5
 TWIN_FOREST = 6
+SEQ_FOREST = 4  # two sequence fields / optional sequence fields
+SEQ_FIRST_OPS = ["replace_with-None", "replace-child", "replace-property", "replace_with", "transform-remove-even", "transformer-remove", "transform-inc", "wrap-tuple", "detach", "detach_self", "duplicate", "new-leaf-1"]
 GUIDED_FORESTS = 4  # the guided families run on the first four forests
 
 
@@ -456,14 +458,14 @@ CLONE_LATER_QUICK = ["detach", "wrap-pair", "replace-child"]
 THIRD_OPS = ["attach", "detach", "detach_self", "replace_with-None", "replace-property", "replace-noop", "duplicate", "transform-remove-even", "transformer-inc"]
 
 
-def make_harness(K: int, which: str, first_ops: list[str] | None = None, later_ops: list[str] | None = None, forest: int | None = None, first_recv: int | None = None, last_ops: list[str] | None = None):
+def make_harness(K: int, which: str, first_ops: list[str] | None = None, later_ops: list[str] | None = None, forest: int | None = None, first_recv: int | None = None, last_ops: list[str] | None = None, n_forests: int | None = None):
     """which: "C18" (fail on invariant violations) or "C19" (fail on frame violations)."""
 
     def harness(e):
         from models.zoo import node_at
 
         LZ.lreset()
-        fno = forest if forest is not None else e.choice(FALSY_FOREST, "forest")
+        fno = forest if forest is not None else e.choice(n_forests or FALSY_FOREST, "forest")
         recipes, designated = FORESTS[fno]
         roots = [LZ.lbuild(r) for r in recipes]
         handles: list[Any] = []
